@@ -4,7 +4,6 @@
 //! `ConnectionProvider` that lets the real `Recursor` talk to all of that under the paused clock
 //! while recording every (server ip, question) pair.
 
-use std::collections::BTreeSet;
 use std::future::Future;
 use std::net::{IpAddr, Ipv4Addr};
 use std::pin::Pin;
@@ -110,10 +109,6 @@ pub struct Internet {
 }
 
 impl Internet {
-    pub fn zone_idx(&self, name: &Name) -> Option<usize> {
-        self.zones.iter().position(|z| &z.name == name)
-    }
-
     /// The deepest zone of the graph whose apex is an ancestor-or-self of `name`.
     pub fn owning_zone(&self, name: &Name) -> usize {
         let mut best = 0;
@@ -373,9 +368,6 @@ impl Net {
     }
     pub fn log(&self) -> Vec<Exchange> {
         self.state.lock().unwrap().log.clone()
-    }
-    pub fn contacted(&self) -> BTreeSet<Exchange> {
-        self.state.lock().unwrap().log.iter().cloned().collect()
     }
 }
 
